@@ -3,6 +3,7 @@ package main
 import (
 	"fmt"
 	"os"
+	"runtime/pprof"
 	"strconv"
 	"strings"
 )
@@ -29,6 +30,10 @@ func main() {
 			}
 			if strings.HasPrefix(a, "--timeout=") {
 				job.Timeout, _ = strconv.Atoi(a[10:])
+				continue
+			}
+			if a == "--combine" {
+				job.Combine = true
 				continue
 			}
 			if strings.HasPrefix(a, "--cube=") {
@@ -61,6 +66,11 @@ func main() {
 			}
 			job.Params = append(job.Params, n)
 		}
+		if pf := os.Getenv("GOSMT_PROF"); pf != "" {
+			f, _ := os.Create(pf)
+			pprof.StartCPUProfile(f)
+			defer pprof.StopCPUProfile()
+		}
 		r := newRunner()
 		jr := r.runJob(job)
 		r.wg.Wait()
@@ -88,6 +98,18 @@ func main() {
 			}
 		}
 		fmt.Println("funcs:", strings.Join(jr.Funcs, " "))
+	case "ssa":
+		l, err := loadProgram(nil)
+		if err != nil {
+			fmt.Println(err)
+			os.Exit(2)
+		}
+		fn := l.pkgs[os.Args[2]].Func(os.Args[3])
+		if fn == nil {
+			fmt.Println("not found")
+			os.Exit(2)
+		}
+		fn.WriteTo(os.Stdout)
 	case "check":
 		os.Exit(cmdCheck(os.Args[2:]))
 	case "replay":
